@@ -188,9 +188,13 @@ class FragmentsOnCompositeTypesChecker(ValidationVisitor):
         if node.type_condition:
             try:
                 type_ = self.schema.get_type_from_literal(node.type_condition)
-            except UnknownType:
-                # Reported by KnownTypeNamesChecker.
-                return
+            except UnknownType as err:
+                # Type conditions are not traversed as type nodes by the
+                # visitor so KnownTypeNamesChecker does not see them.
+                self.add_error(
+                    'Unknown type "%s"' % err, [node.type_condition]
+                )
+                raise SkipNode()
             if not isinstance(type_, GraphQLCompositeType):
                 self.add_error(
                     'Fragment cannot condition on non composite type "%s".'
@@ -202,9 +206,9 @@ class FragmentsOnCompositeTypesChecker(ValidationVisitor):
     def enter_fragment_definition(self, node):
         try:
             type_ = self.schema.get_type_from_literal(node.type_condition)
-        except UnknownType:
-            # Reported by KnownTypeNamesChecker.
-            return
+        except UnknownType as err:
+            self.add_error('Unknown type "%s"' % err, [node.type_condition])
+            raise SkipNode()
         if not isinstance(type_, GraphQLCompositeType):
             self.add_error(
                 'Fragment "%s" cannot condition on non composite type "%s".'
@@ -420,7 +424,7 @@ class PossibleFragmentSpreadsChecker(ValidationVisitor):
                         definition.type_condition
                     )
                 except UnknownType:
-                    # Reported by KnownTypeNamesChecker.
+                    # Reported by FragmentsOnCompositeTypesChecker.
                     pass
 
     def enter_fragment_spread(self, node):
